@@ -72,7 +72,7 @@ CHECKS = {
         "(opcode granularity, cooperative ModelLock, deadlock detection) must terminate, give a sequentially explainable outcome and no duplicate reads; "
         "ZonedClock getters x zones x calendars and SystemClock behind a time_ns seam.", ref="4/C19"),
 }
-READY = set("C01 C02 C03 C09 C10 C11 C12 C13 C15 C16 C18 C19".split())
+READY = set("C01 C02 C03 C04 C05 C06 C07 C08 C09 C10 C11 C12 C13 C14 C15 C16 C17 C18 C19 C20".split())
 NOT_YET = "check not built yet in this session (planned, see DESIGN.md section 4)"
 def main():
     props = [json.loads(l) for l in open(os.path.join(HERE, "properties.jsonl"))]
